@@ -131,7 +131,11 @@ func start(ctx context.Context, o *Options) (counts, error) {
 				case strings.Contains(segTmpl.Media, "$Number$"):
 					periodDur, err := period.GetDuration()
 					if err != nil {
-						return cnt, fmt.Errorf("period duration issue: %w", err)
+						// The only Period of a static MPD starts at 0 and lasts mediaPresentationDuration, also without @start
+						if len(mpd.Periods) != 1 || mpd.MediaPresentationDuration == nil {
+							return cnt, fmt.Errorf("period duration issue: %w", err)
+						}
+						periodDur = *mpd.MediaPresentationDuration
 					}
 					totDurMS := uint32(periodDur / 1_000_000)
 					cnt = downloadSegmentNumber(ctx, segTmpl, totDurMS, media, outDir, baseURL, cnt, o.Force)
